@@ -368,6 +368,57 @@ def process_setting_writes(trees):
     return res
 
 
+# ---------------------------------------------------------------------------------- per-run containers and stacks
+
+PER_RUN_CLASSES = ("ParseContext", "ParseResult", "TableInfo", "Interpreter", "Globals", "Transients", "IdManager", "RowHistory",
+                   "RuntimeContext", "SnowfakeryApplication", "DatasetBase", "JinjaTemplateEvaluatorFactory")
+
+
+def per_run_containers(trees):
+    """attributes of the classes instantiated once per run that `__init__` binds to a new mutable object:
+    (file, class, attribute) — a container that moves from `__init__` to the class body leaves this list (and enters `cells`)"""
+    out = []
+    for rel, t in trees.items():
+        for n in ast.walk(t):
+            if isinstance(n, ast.ClassDef) and n.name in PER_RUN_CLASSES:
+                for f in n.body:
+                    if isinstance(f, ast.FunctionDef) and f.name == "__init__":
+                        for m in _own_nodes(f):
+                            if isinstance(m, ast.Assign) and len(m.targets) == 1 and isinstance(m.targets[0], ast.Attribute) \
+                                    and ast.unparse(m.targets[0].value) == "self" and isinstance(m.value, MUT_LIT):
+                                out.append((rel, n.name, m.targets[0].attr))
+    return sorted(set(out))
+
+
+def stack_discipline(trees):
+    """every `X.append(…)` statement that is paired with an `X.pop()`: is the pop in the `finally` of a `try` that starts
+    IMMEDIATELY after the push (so that no path — in particular no `raise` — lies between push and protection)?
+    (file, function, stack, verdict)"""
+    out = []
+    for rel, t in trees.items():
+        for q, fn in _functions(t.body, []):
+            for body in [fn.body] + [b for m in _own_nodes(fn) if isinstance(m, BLOCKS) for b in _sub_bodies(m)]:
+                for i, st in enumerate(body):
+                    if not (isinstance(st, ast.Expr) and isinstance(st.value, ast.Call) and isinstance(st.value.func, ast.Attribute)
+                            and st.value.func.attr == "append"):
+                        continue
+                    stack = ast.unparse(st.value.func.value)
+                    pops = [m for m in _own_nodes(fn) if isinstance(m, ast.Call) and isinstance(m.func, ast.Attribute)
+                            and m.func.attr == "pop" and not m.args and ast.unparse(m.func.value) == stack]
+                    if not pops:
+                        continue
+                    verdict = "pop not in a finally"
+                    for j in range(i + 1, len(body)):
+                        nx = body[j]
+                        if isinstance(nx, ast.Try) and any(isinstance(m, ast.Call) and isinstance(m.func, ast.Attribute) and m.func.attr == "pop"
+                                                          and ast.unparse(m.func.value) == stack
+                                                          for fb in nx.finalbody for m in ast.walk(fb)):
+                            verdict = "pop in finally, try follows the push" if j == i + 1 else f"pop in finally, {j - i - 1} statement(s) between push and try"
+                            break
+                    out.append((rel, q, stack, verdict))
+    return sorted(set(out))
+
+
 # ---------------------------------------------------------------------------------- caller-owned arguments
 
 ENTRY_POINTS = (("api.py", "generate_data"), ("data_generator.py", "generate"))
@@ -529,6 +580,11 @@ def _global_state(_tree):
     out += _triples("externalWrites", s["external"], "calls changing process-wide state outside the package: (file, function, call)") if s["external"] else \
         "def externalWrites : List (String × String × String) := []\n"
 
+    # ---- per-run containers and stacks
+    out += _triples("perRunContainers", per_run_containers(trees), "containers created by `__init__` of the per-run classes: (file, class, attribute)")
+    sd = stack_discipline(trees)
+    out += ("/-- push / pop pairs: (file, function, stack, verdict) -/\ndef stackDiscipline : List (String × String × String × String) :=\n  ["
+            + ",\n   ".join("(" + ", ".join(lean_str(x) for x in r) + ")" for r in sd) + "]\n")
     # ---- process-wide settings of other modules
     out += _triples("processSettingWrites", process_setting_writes(trees),
                     "in-function calls / stores that can change process-global state of modules outside the package: (file, function, what)")
